@@ -127,7 +127,9 @@ static int doOpenat(int dirfd, const char* path, int flags, mode_t mode) {
     std::string full = fullPath(dirfd, path);
     if (ours(full)) {
       if (i.onOpen) {
+        i.openIsRelative = dirfd != AT_FDCWD && path && path[0] != '/';
         int e = i.onOpen(full, flags);
+        i.openIsRelative = false;
         if (e > 0) { errno = e; return -1; }
         if (e == -1) return (int)syscall(SYS_openat, AT_FDCWD, "/dev/null", flags & ~(O_DIRECTORY | O_CREAT | O_TRUNC), 0); // empty file
         if (e == -2) return (int)syscall(SYS_openat, AT_FDCWD, "/", O_RDONLY, 0); // opens, but every read fails (EISDIR)
